@@ -49,6 +49,8 @@ pub enum Op {
     RegisterCustom { via_from: bool },
     /// continue on a clone; the original must stay exactly as it was
     CloneSwap,
+    /// take a clone, set it aside and continue on the original; the clone must stay as it was
+    CloneKeep,
     /// build a brand-new instance through the real loading path (disk + manual) and compare
     Restart,
     DiskWrite { path: String, hex: String },
@@ -70,6 +72,7 @@ impl Op {
             Op::SetPrefixesLate { .. } => "set_prefixes_late",
             Op::RegisterCustom { .. } => "register_custom",
             Op::CloneSwap => "clone",
+            Op::CloneKeep => "clone_keep",
             Op::Restart => "restart",
             Op::DiskWrite { .. } => "disk_write",
             Op::DiskDelete { .. } => "disk_delete",
@@ -451,6 +454,13 @@ pub fn execute(sc: &RegScenario, stats: &mut Stats) -> Outcome {
                 }
                 Ok(Ok(()))
             }
+            Op::CloneKeep => {
+                if original.is_none() {
+                    original = Some((t.clone(), prev.clone(), renderable));
+                    stats.inc("probe_clone_set_aside");
+                }
+                Ok(Ok(()))
+            }
             Op::Restart => {
                 // durable state = the template directory + what the application adds manually
                 if !model.disk_dirty {
@@ -661,7 +671,7 @@ pub fn execute(sc: &RegScenario, stats: &mut Stats) -> Outcome {
             _ => {}
         }
 
-        let changes_registry = !matches!(op, Op::CloneSwap | Op::Restart | Op::DiskWrite { .. } | Op::DiskDelete { .. } | Op::DiskMkdir { .. });
+        let changes_registry = !matches!(op, Op::CloneSwap | Op::CloneKeep | Op::Restart | Op::DiskWrite { .. } | Op::DiskDelete { .. } | Op::DiskMkdir { .. });
         if !changes_registry {
             continue;
         }
